@@ -649,4 +649,125 @@ theorem run_section (st : St) (q : QName) (a : List (QName × Str)) (kids : Fore
     · simp [stepStop, result, st1, appendKids, attachToRoot, h1q, he', hk2, htr, afterSection, secContent, hk1,
         Doc.app_nil, addToCurr]
 
+/-! ### a whole part -/
+
+/-- the top-level children of a part are section elements without nested section elements and with fresh style
+    names, or things that are skipped (white space, other elements, office:font-face-decls outside styles.xml) -/
+def partKidsOK (sp : Bool) (names : List Str) : Forest → Bool
+  | .nil => true
+  | .cons (.text _) t => partKidsOK sp names t
+  | .cons (.cdata _) t => partKidsOK sp names t
+  | .cons (.elem q _ kids) t =>
+    match route sp q with
+    | some s => noTrigF kids && fresh names (regF (some (qOfSec s)) kids) &&
+                partKidsOK sp (names ++ regF (some (qOfSec s)) kids) t
+    | none => noTrigF kids && (isTrigger q → q = qFontFace) && partKidsOK sp names t
+
+/-- **what a part contributes to the document** (closed form): every routed section element appends `secContent` of
+    its content to its section; everything else is skipped -/
+def loadKids (sp : Bool) (l : Loaded) : Forest → Loaded
+  | .nil => l
+  | .cons (.text _) t => loadKids sp l t
+  | .cons (.cdata _) t => loadKids sp l t
+  | .cons (.elem q _ kids) t =>
+    match route sp q with
+    | some s => loadKids sp ⟨l.doc.app s (secContent kids), l.names ++ regF (some (qOfSec s)) kids, l.fix⟩ t
+    | none => loadKids sp l t
+
+def afterKids (st : St) : Forest → St
+  | .nil => st
+  | .cons (.text _) t => afterKids st t
+  | .cons (.cdata _) t => afterKids st t
+  | .cons (.elem q _ kids) t =>
+    match route st.stylesPart q with
+    | some s => afterKids (afterSection st s kids) t
+    | none => afterKids st t
+
+theorem afterSection_idle (st : St) (s : Sec) (kids : Forest) (h : Idle st) : Idle (afterSection st s kids) := by
+  simpa [Idle, afterSection] using h
+
+theorem run_skip_elem (st : St) (q : QName) (a : List (QName × Str)) (kids : Forest) (hp : st.parsing = false)
+    (hr : route st.stylesPart q = none) (hq : isTrigger q = true → q = qFontFace) (hnk : noTrigF kids = true) :
+    run st (evN (.elem q a kids)) = some st := by
+  have hstart : stepStart st q a = some st := by
+    unfold stepStart
+    by_cases ht : isTrigger q = true
+    · have hqf := hq ht
+      have hsp : st.stylesPart = false := by
+        cases h : st.stylesPart with
+        | false => rfl
+        | true => simp [route, h, hqf] at hr; simp [isTrigger, hr, hqf] at ht
+      simp [ht, hsp, hqf]; cases st; simp_all
+    · simp [ht, hp]; cases st; simp_all
+  have hstop : stepStop st q = some st := by unfold stepStop; simp [hp]
+  simp only [evN, run_cons, step, hstart, Option.bind_some]
+  rw [run_append, run_ignored kids st hp hnk]
+  simp [run_cons, step, hstop]
+
+theorem run_partKids : (f : Forest) → (st : St) → Idle st → st.fix = [] →
+    partKidsOK st.stylesPart st.names f = true → run st (evF f) = some (afterKids st f)
+  | .nil, st, _, _, _ => rfl
+  | .cons (.text s) t, st, hi, hf, hok => by
+    simp only [evF, evN, List.cons_append, List.nil_append, run_cons, step, Option.bind_some]
+    have : stepChars st s = st := by simp [stepChars, hi.1]
+    rw [this]; exact run_partKids t st hi hf (by simpa [partKidsOK] using hok)
+  | .cons (.cdata s) t, st, hi, hf, hok => by
+    simp only [evF, evN, List.cons_append, List.nil_append, run_cons, step, Option.bind_some]
+    have : stepChars st s = st := by simp [stepChars, hi.1]
+    rw [this]; exact run_partKids t st hi hf (by simpa [partKidsOK] using hok)
+  | .cons (.elem q a kids) t, st, hi, hf, hok => by
+    simp only [evF]
+    rw [run_append]
+    cases hr : route st.stylesPart q with
+    | some s =>
+      simp only [partKidsOK, hr, Bool.and_eq_true] at hok
+      rw [run_section st q a kids s hi hf hr hok.1.1 hok.1.2]
+      simp only [Option.bind_some, afterKids, hr]
+      exact run_partKids t _ (afterSection_idle st s kids hi) (by simpa [afterSection] using hf)
+        (by simpa [afterSection] using hok.2)
+    | none =>
+      simp only [partKidsOK, hr, Bool.and_eq_true, decide_eq_true_eq] at hok
+      rw [run_skip_elem st q a kids hi.1 hr hok.1.2 hok.1.1]
+      simp only [Option.bind_some, afterKids, hr]
+      exact run_partKids t st hi hf hok.2
+
+theorem afterKids_loaded : (f : Forest) → (st : St) →
+    (⟨(afterKids st f).doc, (afterKids st f).names, (afterKids st f).fix⟩ : Loaded) =
+      loadKids st.stylesPart ⟨st.doc, st.names, st.fix⟩ f ∧ (afterKids st f).spine = st.spine ∧
+      (afterKids st f).parsing = st.parsing
+  | .nil, st => ⟨rfl, rfl, rfl⟩
+  | .cons (.text _) t, st => by simpa [afterKids, loadKids] using afterKids_loaded t st
+  | .cons (.cdata _) t, st => by simpa [afterKids, loadKids] using afterKids_loaded t st
+  | .cons (.elem q a kids) t, st => by
+    cases hr : route st.stylesPart q with
+    | some s =>
+      have := afterKids_loaded t (afterSection st s kids)
+      simpa [afterKids, loadKids, hr, afterSection] using this
+    | none => simpa [afterKids, loadKids, hr] using afterKids_loaded t st
+
+/-- **C04 (build_events)**: LoadParser on the event stream of a whole part `<root …> sections </root>`.
+    For every part whose top-level children satisfy `partKidsOK`, the run succeeds and the document afterwards is
+    `loadKids` of the children: each routed section element appended `secContent` of its content to its section
+    (section attributes dropped), the root element, white space between the sections and (outside styles.xml)
+    office:font-face-decls contributed nothing. -/
+theorem build_events (sp : Bool) (l : Loaded) (rq : QName) (ra : List (QName × Str)) (secs : Forest)
+    (hf : l.fix = []) (hrq : isTrigger rq = false) (hok : partKidsOK sp l.names secs = true) :
+    loadPart sp l (evN (.elem rq ra secs)) = some (loadKids sp l secs) := by
+  unfold loadPart
+  obtain ⟨st0, hst0⟩ : ∃ st0 : St, st0 = { doc := l.doc, names := l.names, fix := l.fix, stylesPart := sp } := ⟨_, rfl⟩
+  rw [← hst0]
+  have hi : Idle st0 := by subst hst0; exact ⟨rfl, rfl, rfl, rfl⟩
+  have hstart : stepStart st0 rq ra = some st0 := by subst hst0; unfold stepStart; simp [hrq]
+  have hk := run_partKids secs st0 hi (by subst hst0; exact hf) (by subst hst0; exact hok)
+  have hstop : ∀ st : St, st.parsing = false → stepStop st rq = some st := by
+    intro st h; unfold stepStop; simp [h]
+  obtain ⟨hl, hsp, hpar⟩ := afterKids_loaded secs st0
+  have hap : (afterKids st0 secs).parsing = false := by rw [hpar]; exact hi.1
+  simp only [evN, run_cons, step, hstart, Option.bind_some]
+  rw [run_append, hk]
+  simp only [Option.bind_some, run_cons, step, hstop _ hap, run_nil]
+  rw [settle_nil _ (by rw [hsp]; exact hi.2.2.1)]
+  subst hst0
+  simpa using congrArg some hl
+
 end OdfModel.Props.C04
